@@ -731,8 +731,7 @@ class HelicityDecay(AmpDecay):
         self.ls_list = None
         self._ls_list_option = None
         if ls_list is not None:
-            self.ls_list = tuple([tuple(i) for i in ls_list])
-            self._ls_list_option = self.ls_list
+            self._ls_list_option = tuple([tuple(i) for i in ls_list])
         self.params_polar = params_polar
         self.mask_factor = False
         self.params_head = params_head
@@ -1244,12 +1243,17 @@ class HelicityDecay(AmpDecay):
         if self.ls_list is not None:
             return self.ls_list
         ls_list = super(HelicityDecay, self).get_ls_list()
-        if self.ls_selector == "weight":
+        if self._ls_list_option is not None:
+            # the option restricts the allowed couplings: keep its order, each one once
+            ls_list = tuple(
+                i for i in dict.fromkeys(self._ls_list_option) if i in ls_list
+            )
+        elif self.ls_selector == "weight":
             print("using ls_selector", self.ls_selector, "for", self)
             from tf_pwa.cov_ten_ir import ls_selector_weight
 
             ls_list = tuple(ls_selector_weight(self, ls_list))
-        if self.ls_selector == "qr":
+        elif self.ls_selector == "qr":
             print("using ls_selector", self.ls_selector, "for", self)
             ls_list = tuple(ls_selector_qr(self, ls_list))
         self.ls_list = ls_list
